@@ -211,7 +211,17 @@ PINNED = {
         r"bool\s+CommandLineArguments::setOutputType\s*\([^)]*\)\s*\{":
             'SimpleString outputType=getParameterField(ac,av,i,"-o");if(outputType.size()==0)return false;if(outputType=="normal"||outputType=="eclipse"){outputType_=OUTPUT_ECLIPSE;return true;}if(outputType=="junit"){outputType_=OUTPUT_JUNIT;return true;}if(outputType=="teamcity"){outputType_=OUTPUT_TEAMCITY;return true;}return false;',
     },
+    "src/CppUTest/TestPlugin.cpp": {
+        r"bool\s+TestPlugin::parseAllArguments\s*\(\s*int\s+ac\s*,\s*const\s+char[^)]*\)\s*\{":
+            'if(parseArguments(ac,av,index))return true;if(next_)return next_->parseAllArguments(ac,av,index);return false;',
+    },
+    "src/CppUTestExt/MemoryReporterPlugin.cpp": {
+        r"bool\s+MemoryReporterPlugin::parseArguments\s*\([^)]*\)\s*\{":
+            'SimpleString argument(av[index]);if(argument.contains("-pmemoryreport=")){argument.replace("-pmemoryreport=","");destroyMemoryFormatter(formatter_);formatter_=createMemoryFormatter(argument);return true;}return false;',
+    },
     RUNNER: {
+        r"int\s+CommandLineTestRunner::RunAllTests\s*\(\s*int\s+ac\s*,\s*const\s+char[^)]*\)\s*\{":
+            'int result=0;ConsoleTestOutput backupOutput;MemoryLeakWarningPlugin memLeakWarn(DEF_PLUGIN_MEM_LEAK);memLeakWarn.destroyGlobalDetectorAndTurnOffMemoryLeakDetectionInDestructor(true);TestRegistry::getCurrentRegistry()->installPlugin(&memLeakWarn);{CommandLineTestRunner runner(ac,av,TestRegistry::getCurrentRegistry());result=runner.runAllTestsMain();}if(result==0){backupOutput<<memLeakWarn.FinalReport(0);}TestRegistry::getCurrentRegistry()->removePluginByName(DEF_PLUGIN_MEM_LEAK);return result;',
         r"int\s+CommandLineTestRunner::runAllTestsMain\s*\(\s*\)\s*\{":
             'int testResult=1;SetPointerPlugin pPlugin(DEF_PLUGIN_SET_POINTER);registry_->installPlugin(&pPlugin);if(parseArguments(registry_->getFirstPlugin()))testResult=runAllTests();registry_->removePluginByName(DEF_PLUGIN_SET_POINTER);return testResult;',
         r"void\s+CommandLineTestRunner::initializeTestRun\s*\(\s*\)\s*\{":
@@ -234,6 +244,149 @@ def check_pinned():
                 name = re.search(r"::(\w+)", sig).group(1)
                 problems.append("%s in %s is no longer the text the model was written against" % (name, rel))
     return problems
+
+
+# ---------------------------------------------------------------- help() / usage() texts
+
+def c_unescape(body):
+    out, i = [], 0
+    while i < len(body):
+        ch = body[i]
+        if ch == "\\":
+            nx = body[i + 1]
+            m = {"n": "\n", "t": "\t", '"': '"', "\\": "\\", "'": "'"}
+            if nx not in m:
+                raise TranslateError("escape sequence \\%s in help/usage text" % nx)
+            out.append(m[nx])
+            i += 2
+        else:
+            out.append(ch)
+            i += 1
+    return "".join(out)
+
+
+def returned_text(src, fn):
+    """the concatenated string literals of `return "…" "…" …;` in CommandLineArguments::<fn>() const"""
+    body = function_body(src, r"const\s+char\s*\*\s*CommandLineArguments::%s\s*\(\s*\)\s*const\s*\{" % fn).strip()
+    if not body.startswith("return") or not body.endswith(";"):
+        raise TranslateError("%s(): not a single return statement" % fn)
+    rest = body[len("return"):-1]
+    lits = re.findall(r'"((?:\\.|[^"\\])*)"', rest)
+    if re.sub(r'"(?:\\.|[^"\\])*"', "", rest).strip():
+        raise TranslateError("%s(): something other than string literals is returned" % fn)
+    return "".join(c_unescape(l) for l in lits)
+
+
+def expand_optional(token):
+    """`[X]rest` -> [`rest`, `Xrest`]"""
+    m = re.fullmatch(r"\[([^\]]*)\](.*)", token)
+    return [m.group(2), m.group(1) + m.group(2)] if m else [token]
+
+
+def cut_value(word):
+    """option word without its value placeholder: `-r[<#>]` -> `-r`, `TEST(<group>, …` -> `TEST(`"""
+    for stop in ("[<", "<", "["):
+        k = word.find(stop, 1)
+        if k > 0:
+            word = word[:k]
+    return word
+
+
+def help_entries(text):
+    """the option spelled at the start of every option line of help() (two blanks, then the option)"""
+    out = []
+    for line in text.split("\n"):
+        if not line.startswith("  ") or line[2:3] in ("", " "):
+            continue                     # heading, blank line, or continuation of a description
+        body = line[2:]
+        if body.startswith('"'):         # "[IGNORE_]TEST(<group>, <name>)"
+            inner = body[1:body.index('"', 1)]
+            m = re.fullmatch(r"(\[[^\]]*\])?([A-Z_]+\()<[^>]*>, <[^>]*>\)", inner)
+            if not m:
+                raise TranslateError("help(): quoted option line of unknown form: " + line)
+            out += expand_optional((m.group(1) or "") + m.group(2))
+        elif body.startswith("-"):
+            out.append(cut_value(body.split()[0]))
+        else:
+            raise TranslateError("help(): option line of unknown form: " + line)
+    return out
+
+
+def usage_entries(text):
+    """every option of the bracketed synopsis of usage(), alternations expanded"""
+    lines = text.split("\n")
+    if lines[0] != "use -h for more extensive help" or not lines[1].startswith("usage "):
+        raise TranslateError("usage(): first lines changed")
+    syn = " ".join([lines[1][len("usage "):]] + lines[2:])
+    groups, depth, start = [], 0, None
+    for i, ch in enumerate(syn):
+        if ch == "[":
+            if depth == 0:
+                start = i + 1
+            depth += 1
+        elif ch == "]":
+            depth -= 1
+            if depth == 0:
+                groups.append(syn[start:i])
+        elif depth == 0 and ch not in " .":
+            raise TranslateError("usage(): text outside the bracketed options: " + syn[i:i + 20])
+    if depth != 0:
+        raise TranslateError("usage(): unbalanced brackets")
+    out = []
+    for g in groups:
+        g = g.strip()
+        if g.startswith('"'):
+            inner = g[1:g.index('"', 1)]
+            m = re.fullmatch(r"(\[[^\]]*\])?([A-Z_]+\()<[^>]*>, <[^>]*>\)", inner)
+            if not m:
+                raise TranslateError("usage(): quoted option of unknown form: " + g)
+            out += expand_optional((m.group(1) or "") + m.group(2))
+            continue
+        word = g.split()[0]
+        m = re.fullmatch(r"(-\w+)\{([^}]*)\}", word)
+        if m:                                            # -o{normal|eclipse|junit|teamcity}
+            out += [m.group(1) + alt for alt in m.group(2).split("|")]
+        elif "|" in word:                                # -g|sg|xg|xsg
+            alts = word.split("|")
+            out += [alts[0]] + ["-" + a for a in alts[1:]]
+        elif word.startswith("-"):
+            out.append(cut_value(word))
+        else:
+            raise TranslateError("usage(): option of unknown form: " + g)
+    return out
+
+
+# ---------------------------------------------------------------- plugins' parseArguments
+
+def plugin_facts():
+    hdr = strip_comments(read("include/CppUTest/TestPlugin.h"))
+    m = re.search(r"virtual\s+bool\s+parseArguments\s*\([^)]*\)\s*\{([^}]*)\}", hdr)
+    if not m:
+        raise TranslateError("TestPlugin::parseArguments: inline default not found")
+    dflt = squeeze(m.group(1))
+    if dflt not in ("return false;", "return true;"):
+        raise TranslateError("TestPlugin::parseArguments: default is not a constant: " + dflt)
+    overriding = []
+    for d in ("include/CppUTest", "include/CppUTestExt"):
+        full = os.path.join(core.REPO, d)
+        for f in sorted(os.listdir(full)):
+            if not f.endswith(".h"):
+                continue
+            text = strip_comments(read(os.path.join(d, f)))
+            for cm in re.finditer(r"class\s+(\w+)\s*:\s*public\s+(\w+)\s*\{", text):
+                i = text.index("{", cm.start())
+                depth, j = 0, i
+                while j < len(text):
+                    if text[j] == "{":
+                        depth += 1
+                    elif text[j] == "}":
+                        depth -= 1
+                        if depth == 0:
+                            break
+                    j += 1
+                if re.search(r"\bparseArguments\s*\(", text[i:j]):
+                    overriding.append(cm.group(1))
+    return dflt == "return true;", sorted(overriding)
 
 
 def lean_bytes(b):
@@ -264,8 +417,39 @@ def extract():
     text += "def filterFns : List FilterFn := [\n"
     text += ",\n".join("  ⟨%s, %s, %s, %s, %s⟩" % (lean_str(n), lean_bytes(c_string(lit)), str(g).lower(), str(s).lower(), str(x).lower())
                        for n, lit, g, s, x in fns)
-    text += "\n]\n\nend Gen.ParseDispatch\n"
+    text += "\n]\n\n"
+    htxt, utxt = returned_text(src, "help"), returned_text(src, "usage")
+    text += "/-- the option at the start of every option line of help(), in order (`[X]Y` expanded to `Y`, `XY`) -/\n"
+    text += "def helpEntries : List (List UInt8) := [\n"
+    text += ",\n".join("  %s   -- %s" % (lean_bytes(e.encode("latin-1")), e) for e in help_entries(htxt)).replace("   -- ", "   -- ", 1)
+    text = fix_trailing_comma_comments(text)
+    text += "\n]\n\n"
+    text += "/-- every option of the synopsis of usage(), alternations expanded, in order -/\n"
+    text += "def usageEntries : List (List UInt8) := [\n"
+    text += ",\n".join("  %s   -- %s" % (lean_bytes(e.encode("latin-1")), e) for e in usage_entries(utxt))
+    text = fix_trailing_comma_comments(text)
+    text += "\n]\n\n"
+    dflt, overriding = plugin_facts()
+    text += "/-- what the inline default `TestPlugin::parseArguments` returns -/\n"
+    text += "def defaultParseArgumentsReturns : Bool := %s\n\n" % ("true" if dflt else "false")
+    text += "/-- the classes under include/ (besides TestPlugin) that declare `parseArguments` -/\n"
+    text += "def classesOverridingParseArguments : List String := [%s]\n\n" % ", ".join(lean_str(c) for c in overriding)
+    text += "def pluginNameMemLeak : String := %s\n" % lean_str(macro_string("include/CppUTest/CommandLineTestRunner.h", "DEF_PLUGIN_MEM_LEAK"))
+    text += "def pluginNameSetPointer : String := %s\n" % lean_str(macro_string("include/CppUTest/CommandLineTestRunner.h", "DEF_PLUGIN_SET_POINTER"))
+    text += "\nend Gen.ParseDispatch\n"
     return text
+
+
+def macro_string(rel, name):
+    m = re.search(r'#define\s+%s\s+"([^"]*)"' % name, read(rel))
+    if not m:
+        raise TranslateError("macro %s not found in %s" % (name, rel))
+    return m.group(1)
+
+
+def fix_trailing_comma_comments(text):
+    """`  [..]   -- x,\n` -> `  [..],   -- x\n` (the joining comma must precede the comment)"""
+    return re.sub(r"(\])(   -- [^\n]*),\n", r"\1,\2\n", text)
 
 
 def run():
